@@ -408,7 +408,7 @@ Theorem geo_ownership ops h' g' xs :
      In c (holders g') /\ (c < length h')%nat /\ 0 < len /\ off + len <= nlen (cdata (chunk_at h' c)) /\
      nlen (cdata (chunk_at h' c)) <= ccap (chunk_at h' c)) /\
   (forall i j c oi li oj lj, (i < j)%nat -> nth_error (gslices g') i = Some (SArena c oi li) ->
-     nth_error (gslices g') j = Some (SArena c oj lj) -> oi + li <= oj).
+     nth_error (gslices g') j = Some (SArena c oj lj) -> oi + li <= oj \/ oj + lj <= oi).
 Proof.
   intros E.
   assert (H0 : heap_ok []) by (intros c Hc; cbn in Hc; lia).
